@@ -1997,10 +1997,11 @@ def check_C18(ctx):
     for cc in (0, ord(";"), ord("-")):
         sub = datas[:7] + datas[7::max(1, len(datas) // 40)]
         pres = run.run_pub(ctx.impl, [run.req(op="parse", data=d, cc=cc) for d in sub])
-        for policy in ("stop", "drain"):
-            cres = run.run_pub(ctx.impl, [run.req(op="chan", data=d, policy=policy, cc=cc, seed=3, jitter=1) for d in sub], race=True)
+        for policy, entry in (("stop", "stream"), ("drain", "stream"), ("stop", "file"), ("drain", "file")):
+            # both entry points of the channel parser: ParseStream on a reader, ParseFile on a path (here a named pipe) - the configuration given to NewParser holds for both
+            cres = run.run_pub(ctx.impl, [run.req(op="chan", data=d, policy=policy, cc=cc, seed=3, jitter=1, fifo=(1 if entry == "file" else None)) for d in (sub if entry == "stream" else sub[:max(8, len(sub) // 4)])], race=True)
             for d, pr, cr in zip(sub, pres, cres):
-                ctx.count(); ctx.tally("comment_char", cc)
+                ctx.count(); ctx.tally("comment_char", cc); ctx.tally("entry_point_with_other_comment_char", entry)
                 pl = pr.split(b"\n"); evs, ret = pl[:-1], pl[-1]
                 want = []
                 for e in evs:
